@@ -360,6 +360,79 @@ def _normal_exit_variant(case, ctx, root):
     ctx.feat("normal_exit_children")
 
 
+def _readonly_variant(case, ctx, root):
+    """A backing file the process may not write to (mode 0444, opened by an unprivileged child: uid 65534 when the harness runs as
+    root).  Either the open is refused - the file is untouched - or it is accepted, and then what is added through that handle must be
+    in the file after close() like anywhere else: the file is compared with the in-memory export of the same history."""
+    from probables import BloomFilter, BloomFilterOnDisk
+
+    os.makedirs(root, exist_ok=True)
+    d = os.path.realpath(root)
+    while d not in ("/", "/tmp") and os.path.dirname(d) != d:
+        try:
+            os.chmod(d, os.stat(d).st_mode | 0o055)
+        except OSError:
+            break
+        d = os.path.dirname(d)
+    path = os.path.join(root, "ro.blm")
+    hf = hash_by_name(case["hash"])
+    pool = [dk(k) for k in case["pool"]]
+    est = min(case["est"], 200)
+    adds = [op[1] % len(pool) for op in case["ops"] if op[0] == "add"] or [0]
+    first, second = adds[: len(adds) // 2], adds[len(adds) // 2:]
+    f = BloomFilterOnDisk(path, est, case["fpr"], hash_function=hf)
+    ref = BloomFilter(est, case["fpr"], hash_function=hf)
+    for i in first:
+        f.add(pool[i])
+        ref.add(pool[i])
+    f.close()
+    before = open(path, "rb").read()
+    os.chmod(path, 0o444)
+    pid = os.fork()
+    if pid == 0:
+        code = 9
+        try:
+            if os.geteuid() == 0:
+                os.setgroups([])
+                os.setgid(65534)
+                os.setuid(65534)
+            try:
+                g = BloomFilterOnDisk(path, hash_function=hf)
+            except Exception:  # noqa  refused: fine
+                os._exit(10)
+            try:
+                for i in second:
+                    g.add(pool[i])
+                ok = all(g.check(pool[i]) for i in second)
+                g.close()
+            except Exception:  # noqa  refused at the first write / at close: fine as long as the file is one of the two exports
+                os._exit(11)
+            code = 0 if ok else 12
+        finally:
+            os._exit(code)
+    _, status = os.waitpid(pid, 0)
+    code = os.WEXITSTATUS(status) if os.WIFEXITED(status) else -1
+    os.chmod(path, 0o644)
+    raw = read_file(ctx, path, "read-only backing file after the unprivileged process")
+    if code == 10:
+        ctx.check("C11.closed_equals_memory", raw == before, "a refused open of a read-only backing file changed the file")
+        ctx.feat("readonly_file_refused")
+    elif code == 0:
+        for i in second:
+            ref.add(pool[i])
+        want = bytes(ref)
+        ctx.check("C11.closed_equals_memory", raw == want,
+                  lambda: f"a handle on a read-only (0444) backing file accepted {len(second)} additions, reported them present and closed "
+                          f"normally, but the file does not hold them: footer {FOOT.unpack(raw[-20:]) if len(raw) >= 20 else raw!r} vs "
+                          f"{FOOT.unpack(want[-20:])}, bits equal: {raw[:-20] == want[:-20]}")
+        ctx.feat("readonly_file_accepted")
+    elif code == 11:
+        ctx.check("C11.closed_equals_memory", raw == before or len(raw) == len(before), "read-only backing file damaged by a refused write")
+        ctx.feat("readonly_file_write_refused")
+    else:
+        ctx.check("C11.no_exception", code == 0, f"unprivileged child on a read-only backing file ended with code {code}")
+
+
 def run_case(case, ctx):
     root = ctx.tmpdir()
     collect = []
@@ -394,6 +467,9 @@ def run_case(case, ctx):
     if case["kill"] == 1 or (thorough and case["kill"] == 3):
         _normal_exit_variant(case, ctx, os.path.join(root, "exitrun"))
         feats.add("normal_exit_variant")
+    if case["kill"] == 2:
+        _readonly_variant(case, ctx, os.path.join(root, "ro"))
+        feats.add("readonly_file_variant")
     for f in feats:
         ctx.feat(f)
     ctx.feat("snapshots", nsnap)
